@@ -1,4 +1,5 @@
 #!/bin/bash
+trap "git -C /repo checkout -- . 2>/dev/null" EXIT INT TERM
 # usage: tools/tryseed.sh <prop> [<dir with patch.diff, default /verif/seeded/<prop>>]  -- applies the seeded change to /repo, runs the check, reverts
 prop=$1; d=${2:-/verif/seeded/$prop}
 cd /repo && git apply "$d/patch.diff" || { echo "PATCH DOES NOT APPLY"; exit 2; }
